@@ -4,19 +4,48 @@ import numpy as np
 from proto import run_driver, fbits, unbits
 
 ASSUMPTIONS = ["values (conditions, model, mean, positions) are abstracted to identifiers in the cache model; the tie compares, call by call, "
-               "whether the real output equals the output of a freshly built object with the model's prediction",
-               "nugget-free models in the history correspondence (nugget noise history is C11's subject)",
+               "whether the real output equals the output of a freshly built object with the model's prediction, and after EVERY operation "
+               "the stored field names of both objects with the model's bookkeeping",
+               "nugget noise history is C11's subject: histories whose model identifiers carry a nugget pass a new seed at every call "
+               "(generator restarted), all other histories use nugget-free models and repeat / change seeds freely",
                "custom field names given to store= / krige_store= are distinct from the names of the other slots of the same object "
-               "(the model keeps one name space per role: raw_krige slot of CondSRF, krige_var slot of Krige)",
+               "(the model keeps one name space per slot)",
                "positions are changed through calls and set_pos of either object, not by assigning the pos / mesh_type attributes"]
 
 SEED = 20240917
-RAW_NAMES = ["raw_krige", "rk1"]     # names of the third CondSRF slot: model name ids 0, 1
-VAR_NAMES = ["krige_var", "kv1"]     # names of the second Krige slot
+# names of the stored fields per slot: index = the model's name identifier (0 = default name)
+FIELD_NAMES = ["field", "cf1", "cf2"]          # CondSRF slot 0: conditioned field
+RAWF_NAMES = ["raw_field", "rf1", "rf2"]       # CondSRF slot 1: unconditional field
+RAW_NAMES = ["raw_krige", "rk1", "rk2"]        # CondSRF slot 2: raw kriging field
+KFIELD_NAMES = ["field", "kf1", "kf2"]         # Krige slot 0: kriging field
+VAR_NAMES = ["krige_var", "kv1", "kv2"]        # Krige slot 1: kriging variance
+CRF_SLOTS = [FIELD_NAMES, RAWF_NAMES, RAW_NAMES]
+KRIGE_SLOTS = [KFIELD_NAMES, VAR_NAMES]
+
+# model families behind the abstract model identifiers.  PLAIN: no optional argument; OPT: optional shape arguments with four
+# well separated admissible values each (dim 1-3)
+PLAIN = ["Gaussian", "Exponential", "Spherical", "Cubic", "Circular", "HyperSpherical"]
+_HURST = [0.5, 0.2, 0.8, 0.35]
+_LOW = [0.0, 0.5, 1.0, 0.25]
+OPT = {
+    "Stable": {"alpha": [1.9, 0.6, 1.3, 1.0]},
+    "Matern": {"nu": [0.5, 3.0, 1.5, 1.0]},
+    "Rational": {"alpha": [1.0, 4.0, 0.5, 2.0]},
+    "Integral": {"nu": [1.0, 3.0, 0.5, 2.0]},
+    "SuperSpherical": {"nu": [1.0, 2.5, 1.5, 4.0]},
+    "TPLSimple": {"nu": [2.0, 3.5, 2.5, 5.0]},
+    "TPLGaussian": {"hurst": _HURST, "len_low": _LOW},
+    "TPLExponential": {"hurst": _HURST, "len_low": _LOW},
+    "TPLStable": {"hurst": _HURST, "alpha": [1.5, 0.7, 1.9, 1.1], "len_low": _LOW},
+}
+PROFILES = ["len", "opt", "geo", "rescale", "var", "nugget"]
+NPOS = 6
 
 
-def concrete(rng, dim=None, variant=None):
-    """concrete values behind the abstract identifiers"""
+def concrete(rng, dim=None, variant=None, cls=None, profile=None, same_count=None):
+    """concrete values behind the abstract identifiers.  `profile` says in WHAT the four model identifiers differ:
+       len (length scale, and anisotropy + rotation for dim > 1), opt (ONE optional argument only), geo (anisotropy / rotation
+       only), rescale only, var only, nugget only"""
     dim = int(rng.randint(1, 4)) if dim is None else dim
     v = str(rng.choice(["Simple", "Ordinary", "Universal"]))
     variant = v if variant is None else variant
@@ -24,93 +53,205 @@ def concrete(rng, dim=None, variant=None):
     cp = rng.uniform(0, 10, size=(dim, n))
     base = rng.randn(n)
     conds = [base + 0.75 * k * np.cos(np.arange(n) + k) for k in range(4)]
-    lens = [3.0, 4.5, 7.0, 2.0]      # all supports overlap the 10-wide domain: distinct identifiers stay visibly distinct
-    # model identifiers also differ in anisotropy / rotation for dim > 1 (edited in place by the 'model' operation)
-    anis = [1.0, 0.5, 1.0, 0.4]
-    angles = [0.0, 0.7, 1.2, 0.0]
     means = [0.0, 1.5, -2.0]
+    c = str(rng.choice(PLAIN)) if rng.rand() < 0.35 else str(rng.choice(sorted(OPT)))
+    cls = c if cls is None else cls
+    w = {"len": 0.25, "opt": 0.4 if cls in OPT else 0.0, "geo": 0.12 if dim > 1 else 0.0, "rescale": 0.1, "var": 0.1, "nugget": 0.06}
+    pr = str(rng.choice(PROFILES, p=np.array([w[k] for k in PROFILES]) / sum(w.values())))
+    profile = pr if profile is None else profile
+    o = str(rng.choice(sorted(OPT[cls]))) if cls in OPT else None
+    # what all four identifiers share ...
+    shared = dict(var=1.3, len_scale=3.0)
+    if dim > 1:
+        shared.update(anis=[0.7] * (dim - 1), angles=[0.4] * (1 if dim == 2 else 3))
+    # ... and what distinguishes them (all supports overlap the 10-wide domain: distinct identifiers stay visibly distinct)
+    if profile == "len":
+        vary = {"len_scale": [3.0, 4.5, 7.0, 2.0]}
+        if dim > 1:
+            vary["anis"] = [[a] * (dim - 1) for a in [1.0, 0.5, 1.0, 0.4]]
+            vary["angles"] = [[a] * (1 if dim == 2 else 3) for a in [0.0, 0.7, 1.2, 0.0]]
+    elif profile == "opt":
+        vary = {o: list(OPT[cls][o])}
+    elif profile == "geo":
+        vary = {"anis": [[a] * (dim - 1) for a in [1.0, 0.5, 0.8, 0.4]],
+                "angles": [[a] * (1 if dim == 2 else 3) for a in [0.0, 0.7, 1.2, 0.3]]}
+        if rng.rand() < 0.5:
+            del vary[str(rng.choice(["anis", "angles"]))]      # only the ratios / only the rotation
+    elif profile == "rescale":
+        vary = {"rescale": [1.0, 2.0, 0.5, 1.5]}
+    elif profile == "var":
+        vary = {"var": [1.3, 0.4, 2.5, 0.9]}
+    else:
+        vary = {"nugget": [0.2, 0.05, 0.5, 0.1]}
+    if cls.startswith("TPL") and "var" not in vary:
+        # truncated power law models keep the INTENSITY (var_raw) under in-place edits of len_scale / hurst / len_low (var =
+        # var_raw * var_factor(len_scale, len_low, hurst) follows): the freshly built reference is given the same intensity
+        shared["var_raw"] = shared.pop("var")
+    mparams = [dict(shared, **{k: vals[i] for k, vals in vary.items()}) for i in range(4)]
+    # target meshes: 0, 1, 5 share a point count, 2 and 4 share one, 3 is a structured mesh; `same_count`: all unstructured
+    # meshes have the same point count (a field that survives a mesh change has a plausible shape)
+    same_count = bool(rng.rand() < 0.5) if same_count is None else same_count
     n0 = int(rng.randint(2, 7))
-    # positions 0 and 1: same point count; 2, 3: independent counts
-    poss = [rng.uniform(0, 10, size=(dim, n0)), rng.uniform(0, 10, size=(dim, n0))] + \
-           [rng.uniform(0, 10, size=(dim, int(rng.randint(2, 7)))) for _ in range(2)]
-    cls = str(rng.choice(["Gaussian", "Exponential", "Spherical"]))
-    return dict(dim=dim, cp=cp, conds=conds, lens=lens, anis=anis, angles=angles, means=means, poss=poss, cls=cls,
-                variant=variant)
+    n2 = n0 if same_count else int(rng.randint(2, 7))
+    u = lambda k: (rng.uniform(0, 10, size=(dim, k)), "unstructured")      # noqa
+    poss = [u(n0), u(n0), u(n2), (tuple(np.sort(rng.uniform(0, 10, size=int(rng.randint(2, 4)))) for _ in range(dim)), "structured"),
+            u(n2), u(n0)]
+    return dict(dim=dim, cp=cp, conds=conds, means=means, poss=poss, cls=cls, variant=variant, profile=profile,
+                vary=sorted(vary), mparams=mparams)
 
 
-NPOS = 4
+def describe(cv):
+    return dict(variant=cv["variant"], dim=cv["dim"], profile=cv["profile"], vary=cv["vary"], **{"class": cv["cls"]})
+
+
+def make_model(cv, model_id):
+    import gstools as gs
+    return getattr(gs, cv["cls"])(dim=cv["dim"], **cv["mparams"][model_id])
 
 
 def set_model(model, cv, model_id):
-    """the in-place model edit behind a model identifier"""
-    model.len_scale = cv["lens"][model_id]
-    if cv["dim"] > 1:
-        model.anis = [cv["anis"][model_id]] * (cv["dim"] - 1)
-        model.angles = [cv["angles"][model_id]] * (1 if cv["dim"] == 2 else 3)
+    """the in-place model edit behind a model identifier: ONLY the attributes the identifiers differ in are assigned"""
+    for k in cv["vary"]:
+        setattr(model, k, cv["mparams"][model_id][k])
 
 
-def build(cv, cond, model_id, mean_id):
+def build(cv, cond, model_id, mean_id, seed=SEED):
     import gstools as gs
-    kw = {}
-    if cv["dim"] > 1:
-        kw = dict(anis=[cv["anis"][model_id]] * (cv["dim"] - 1), angles=[cv["angles"][model_id]] * (1 if cv["dim"] == 2 else 3))
-    model = getattr(gs, cv["cls"])(dim=cv["dim"], var=1.3, len_scale=cv["lens"][model_id], **kw)
+    model = make_model(cv, model_id)
     if cv["variant"] == "Simple":
         kr = gs.krige.Simple(model, cv["cp"], cv["conds"][cond], mean=cv["means"][mean_id])
     elif cv["variant"] == "Ordinary":
         kr = gs.krige.Ordinary(model, cv["cp"], cv["conds"][cond], trend=cv["means"][mean_id])
     else:
         kr = gs.krige.Universal(model, cv["cp"], cv["conds"][cond], drift_functions="linear", trend=cv["means"][mean_id])
-    return gs.CondSRF(kr, seed=SEED, mode_no=64)
+    return gs.CondSRF(kr, seed=seed, mode_no=64)
+
+
+def _slot_opts(rng, op, name_key, save_key, p_off, p_name):
+    q = rng.rand()
+    if q < p_off:
+        op[save_key] = False
+    elif q < p_off + p_name:
+        op[name_key] = int(rng.randint(1, 3))
 
 
 def gen_call(rng, with_pos=None):
-    """a CondSRF call with random store / krige_store options (defaults most of the time)"""
+    """a CondSRF call with random store / krige_store options (defaults half of the time).  Per slot: name identifier
+       (`fn`, `rfn`, `rn` for the CondSRF slots, `kfn`, `vn` for the Krige slots) and save flag (`fs`, `rfs`, `store`, `kfs`,
+       `kstore`); `list`: pass lists although a scalar / a single string would do (2: without trailing defaults)"""
     op = {"k": "call"}
     if (rng.rand() < 0.6) if with_pos is None else with_pos:
         op["pos"] = int(rng.randint(0, NPOS))
+    if rng.rand() < 0.3:
+        op["sd"] = int(rng.randint(1, 3))
     r = rng.rand()
-    if r < 0.55:
+    if r < 0.5:
         return op
+    if r < 0.6:                    # the scalar forms: nothing stored in the CondSRF object / in the Krige object
+        if rng.rand() < 0.6:
+            op.update(store=False, fs=False, rfs=False)
+        if "store" not in op or rng.rand() < 0.4:
+            op.update(kstore=False, kfs=False)
+        return op
+    _slot_opts(rng, op, "rn", "store", 0.25, 0.3)
+    _slot_opts(rng, op, "vn", "kstore", 0.2, 0.3)
+    _slot_opts(rng, op, "fn", "fs", 0.2, 0.3)
+    _slot_opts(rng, op, "rfn", "rfs", 0.2, 0.3)
+    _slot_opts(rng, op, "kfn", "kfs", 0.2, 0.3)
     if rng.rand() < 0.5:
-        op["store"] = False
-    elif rng.rand() < 0.4:
-        op["rn"] = 1
-    if rng.rand() < 0.35:
-        op["kstore"] = False
-    elif rng.rand() < 0.3:
-        op["vn"] = 1
-    if rng.rand() < 0.4:           # list forms: the other slots get their own flags
-        op["sx"] = [bool(rng.rand() < 0.5), bool(rng.rand() < 0.5)]
-    if rng.rand() < 0.4:
-        op["kx"] = bool(rng.rand() < 0.5)
+        op["list"] = int(rng.randint(1, 3))
     return op
+
+
+def gen_krige_call(rng, with_pos=None):
+    o = {"k": "krige_call"}
+    if (rng.rand() < 0.6) if with_pos is None else with_pos:
+        o["pos"] = int(rng.randint(0, NPOS))
+    q = rng.rand()
+    if q < 0.15:
+        o.update(store=False, kfs=False)
+    elif q < 0.3:
+        o["vn"] = int(rng.randint(1, 3))
+    elif q < 0.45:
+        _slot_opts(rng, o, "vn", "store", 0.3, 0.4)
+        _slot_opts(rng, o, "kfn", "kfs", 0.3, 0.4)
+    return o
+
+
+def gen_invalidation(rng):
+    """operations after which stored kriging results of earlier meshes / data must not be found again"""
+    q = rng.rand()
+    if q < 0.3:
+        return [{"k": "set_condition", "cond": int(rng.randint(0, 4))}]
+    if q < 0.4:
+        return [{"k": "set_condition"}]
+    if q < 0.55:
+        return [{"k": "set_pos", "pos": int(rng.randint(0, NPOS))}]
+    if q < 0.65:
+        return [{"k": "krige_set_pos", "pos": int(rng.randint(0, NPOS))}]
+    if q < 0.75:
+        return [{"k": "delete"}]
+    if q < 0.85:
+        return [{"k": "krige_delete"}]
+    if q < 0.93:
+        return [{"k": "model", "v": int(rng.randint(0, 4)), "re": bool(rng.rand() < 0.5)}, {"k": "set_condition"}]
+    return [gen_krige_call(rng, with_pos=False)]
+
+
+def mesh_walk(rng):
+    """generate on several different meshes in a row (CondSRF calls, some direct kriging calls), then invalidate, then call
+       WITHOUT positions (once or twice)"""
+    seg = []
+    for p in rng.permutation(NPOS)[: int(rng.randint(2, 5))]:
+        o = gen_call(rng, with_pos=True) if rng.rand() < 0.75 else gen_krige_call(rng, with_pos=True)
+        o["pos"] = int(p)
+        seg.append(o)
+    seg += gen_invalidation(rng)
+    if rng.rand() < 0.3:
+        seg += gen_invalidation(rng)
+    seg.append(gen_call(rng, with_pos=False))
+    if rng.rand() < 0.4:
+        seg.append(gen_call(rng, with_pos=False))
+    return seg
+
+
+def change_walk(rng):
+    """generate, then one to three rounds of: change the model (in place or by re-assignment) / the mean / the conditioning
+       values, refresh as documented, generate again (mostly without positions, same or new seed)"""
+    seg = [gen_call(rng, with_pos=True)]
+    for _ in range(int(rng.randint(1, 4))):
+        q = rng.rand()
+        if q < 0.6:
+            seg.append({"k": "model", "v": int(rng.randint(0, 4)), "re": bool(rng.rand() < 0.4)})
+            seg.append({"k": "set_condition"} if rng.rand() < 0.6 else {"k": "set_condition", "cond": int(rng.randint(0, 4))})
+        elif q < 0.8:
+            seg += [{"k": "mean", "v": int(rng.randint(0, 3))}, {"k": "set_condition"}]
+        else:
+            seg.append({"k": "set_condition", "cond": int(rng.randint(0, 4))})
+        seg.append(gen_call(rng, with_pos=bool(rng.rand() < 0.3)))
+    return seg
 
 
 def gen_history(rng, length):
     ops = []
-    for _ in range(length):
+    while len(ops) < length:
         r = rng.rand()
-        if r < 0.34:
+        if r < 0.08:
+            ops += mesh_walk(rng)
+        elif r < 0.16:
+            ops += change_walk(rng)
+        elif r < 0.4:
             ops.append(gen_call(rng))
-        elif r < 0.46:
-            o = {"k": "krige_call"}
-            if rng.rand() < 0.6:
-                o["pos"] = int(rng.randint(0, NPOS))
-            q = rng.rand()
-            if q < 0.15:
-                o["store"] = False
-            elif q < 0.3:
-                o["vn"] = 1
-            ops.append(o)
-        elif r < 0.53:
+        elif r < 0.5:
+            ops.append(gen_krige_call(rng))
+        elif r < 0.57:
             ops.append({"k": "set_pos", "pos": int(rng.randint(0, NPOS))})
-        elif r < 0.59:
+        elif r < 0.62:
             ops.append({"k": "krige_set_pos", "pos": int(rng.randint(0, NPOS))})
         elif r < 0.73:
             ops.append({"k": "set_condition", "cond": int(rng.randint(0, 4))} if rng.rand() < 0.6 else {"k": "set_condition"})
-        elif r < 0.83:
-            ops.append({"k": "model", "v": int(rng.randint(0, 4))})
+        elif r < 0.85:
+            ops.append({"k": "model", "v": int(rng.randint(0, 4)), "re": bool(rng.rand() < 0.35)})
         elif r < 0.91:
             ops.append({"k": "mean", "v": int(rng.randint(0, 3))})
         elif r < 0.96:
@@ -140,74 +281,126 @@ def kind(o):
     return k
 
 
+def _store_arg(slots, form):
+    """store= argument from [(name table, name id, save flag)] per slot.  form 0: the most compact form (a bool when all
+       slots agree and use default names, a single string when only the first slot is named), 1: a full list, 2: a list
+       without trailing defaults (get_store_config pads with True)"""
+    entries = [tbl[i] if i else bool(sv) for tbl, i, sv in slots]
+    if not form:
+        if all(isinstance(e, bool) for e in entries) and len(set(entries)) == 1:
+            return entries[0]
+        if isinstance(entries[0], str) and all(e is True for e in entries[1:]):
+            return entries[0]
+    if form == 2:
+        while len(entries) > 1 and entries[-1] is True:
+            entries.pop()
+    return entries
+
+
 def store_args(op):
-    """the store= / krige_store= arguments of CondSRF.__call__ behind a call operation"""
-    st, kst, rn, vn = op.get("store", True), op.get("kstore", True), op.get("rn", 0), op.get("vn", 0)
-    if rn == 0 and "sx" not in op:
-        store = st
-    else:
-        sx = op.get("sx", [st, st])
-        store = [sx[0], sx[1], RAW_NAMES[rn] if rn else st]
-    if vn == 0 and "kx" not in op:
-        kstore = kst
-    else:
-        kstore = [op.get("kx", kst), VAR_NAMES[vn] if vn else kst]
+    """the store= / krige_store= arguments of CondSRF.__call__ behind a call operation (a named slot is always saved)"""
+    form = op.get("list", 0)
+    store = _store_arg([(FIELD_NAMES, op.get("fn", 0), op.get("fs", True)), (RAWF_NAMES, op.get("rfn", 0), op.get("rfs", True)),
+                        (RAW_NAMES, op.get("rn", 0), op.get("store", True))], form)
+    kstore = _store_arg([(KFIELD_NAMES, op.get("kfn", 0), op.get("kfs", True)), (VAR_NAMES, op.get("vn", 0), op.get("kstore", True))], form)
     return store, kstore
 
 
+def krige_store_arg(op):
+    """the store= argument of a direct kriging call"""
+    return _store_arg([(KFIELD_NAMES, op.get("kfn", 0), op.get("kfs", True)), (VAR_NAMES, op.get("vn", 0), op.get("store", True))],
+                      op.get("list", 0))
+
+
+def normal(op):
+    """the operation as sent to the model: a slot with a custom name is saved (the name IS the save request)"""
+    o = dict(op)
+    for nk, sk in (("fn", "fs"), ("rfn", "rfs"), ("rn", "store"), ("kfn", "kfs"), ("vn", "kstore" if op["k"] == "call" else "store")):
+        if o.get(nk, 0):
+            o[sk] = True
+    return o
+
+
+def stored_sets(crf):
+    return sorted(crf.field_names), sorted(crf.krige.field_names)
+
+
 def run_real(cv, ops, c0, m0, mu0):
-    """returns per CondSRF call: 'ValueError' (no positions yet) or (equals_fresh: bool, max abs diff[, note])"""
+    """replays a history on a real CondSRF object.  Returns a dict:
+       calls: per CondSRF call 'ValueError' (no positions yet) or (equals_fresh: bool, max abs diff[, note]);
+       names: per operation (sorted field_names of the CondSRF object, of the Krige object) after it;
+       survivors: (operation index, operation kind, leftover names) wherever a deletion / position change left a stored field
+                  behind that this very operation did not store (independent of the Lean model)"""
     crf = build(cv, c0, m0, mu0)
     cond, model_id, mean_id, pos_id = c0, m0, mu0, None
-    out = []
+    out, names, survivors = [], [], []
+    ncall = 0
+    fresh_cache = {}
     with warnings.catch_warnings():
         warnings.simplefilter("ignore")
-        for op in ops:
+        for idx, op in enumerate(ops):
             k = op["k"]
+            old_pos = pos_id
+            own_crf, own_krige, raised = None, None, False
             if k == "call":
                 p = op.get("pos", None)
                 store, kstore = store_args(op)
+                ncall += 1
+                seed = SEED + 10 + ncall if cv["profile"] == "nugget" else SEED + op.get("sd", 0)
                 if p is not None:
                     pos_id = p      # set_pos happens before anything can fail
                 try:
                     if p is None:
-                        res = crf(seed=SEED, store=store, krige_store=kstore)
+                        res = crf(seed=seed, store=store, krige_store=kstore)
                     else:
-                        res = crf(cv["poss"][p], seed=SEED, store=store, krige_store=kstore)
+                        res = crf(cv["poss"][p][0], seed=seed, mesh_type=cv["poss"][p][1], store=store, krige_store=kstore)
                 except Exception as e:       # noqa
+                    raised = True
                     if pos_id is None and isinstance(e, ValueError):
                         out.append("ValueError")
                     else:
-                        out.append((False, float("inf"), "raised " + type(e).__name__))
-                    continue
-                fresh = build(cv, cond, model_id, mean_id)(cv["poss"][pos_id], seed=SEED)
-                if np.shape(res) != np.shape(fresh):
-                    out.append((False, float("inf"), "shape %s instead of %s" % (np.shape(res), np.shape(fresh))))
-                    continue
-                d = float(np.max(np.abs(res - fresh)))
-                out.append((bool(d <= 1e-9 * (1 + np.abs(fresh).max())), d))
+                        out.append((False, float("inf"), "raised %s: %s" % (type(e).__name__, str(e)[:80])))
+                if not raised:
+                    o = normal(op)
+                    own_crf = {tbl[o.get(nk, 0)] for tbl, nk, sk in ((FIELD_NAMES, "fn", "fs"), (RAWF_NAMES, "rfn", "rfs"),
+                                                                    (RAW_NAMES, "rn", "store")) if o.get(sk, True)}
+                    own_krige = {tbl[o.get(nk, 0)] for tbl, nk, sk in ((KFIELD_NAMES, "kfn", "kfs"), (VAR_NAMES, "vn", "kstore"))
+                                 if o.get(sk, True)}
+                    # the reference: a freshly built object (current data, model, mean; built with the seed of this call), called
+                    # once at the current positions — a pure function of these identifiers, computed once per history
+                    fk = (cond, model_id, mean_id, pos_id, seed)
+                    if fk not in fresh_cache:
+                        fresh_cache[fk] = build(cv, cond, model_id, mean_id, seed=seed)(
+                            cv["poss"][pos_id][0], seed=seed, mesh_type=cv["poss"][pos_id][1])
+                    fresh = fresh_cache[fk]
+                    if np.shape(res) != np.shape(fresh):
+                        out.append((False, float("inf"), "shape %s instead of %s" % (np.shape(res), np.shape(fresh))))
+                    else:
+                        d = float(np.max(np.abs(res - fresh)))
+                        out.append((bool(d <= 1e-9 * (1 + np.abs(fresh).max())), d))
             elif k == "krige_call":
                 p = op.get("pos", None)
-                vn = op.get("vn", 0)
-                store = op.get("store", True)
-                if store and vn:
-                    store = [True, VAR_NAMES[vn]]
                 if p is not None:
                     pos_id = p
                 try:
                     if p is None:
-                        crf.krige(store=store)
+                        crf.krige(store=krige_store_arg(op))
                     else:
-                        crf.krige(cv["poss"][p], store=store)
+                        crf.krige(cv["poss"][p][0], mesh_type=cv["poss"][p][1], store=krige_store_arg(op))
+                    o = normal(op)
+                    own_krige = {tbl[o.get(nk, 0)] for tbl, nk, sk in ((KFIELD_NAMES, "kfn", "kfs"), (VAR_NAMES, "vn", "store"))
+                                 if o.get(sk, True)}
                 except ValueError:
                     if pos_id is not None:
                         raise
             elif k == "set_pos":
-                crf.set_pos(cv["poss"][op["pos"]])
+                crf.set_pos(cv["poss"][op["pos"]][0], cv["poss"][op["pos"]][1])
                 pos_id = op["pos"]
+                own_crf, own_krige = set(), set()
             elif k == "krige_set_pos":
-                crf.krige.set_pos(cv["poss"][op["pos"]])
+                crf.krige.set_pos(cv["poss"][op["pos"]][0], cv["poss"][op["pos"]][1])
                 pos_id = op["pos"]
+                own_krige = set()
             elif k == "set_condition":
                 if "cond" in op:
                     cond = op["cond"]
@@ -216,7 +409,10 @@ def run_real(cv, ops, c0, m0, mu0):
                     crf.krige.set_condition()
             elif k == "model":
                 model_id = op["v"]
-                set_model(crf.model, cv, model_id)
+                if op.get("re", False):
+                    crf.model = make_model(cv, model_id)       # re-assignment of a newly built model object
+                else:
+                    set_model(crf.model, cv, model_id)
             elif k == "mean":
                 mean_id = op["v"]
                 if cv["variant"] == "Simple":
@@ -227,12 +423,30 @@ def run_real(cv, ops, c0, m0, mu0):
                 crf.delete_fields()
             elif k == "krige_delete":
                 crf.krige.delete_fields()
-    return out
+            nc, nk_ = stored_sets(crf)
+            names.append((nc, nk_))
+            # the invariant 'after delete_fields() / a position change no stored field remains' on the real objects
+            left = []
+            if k == "delete":
+                left = ["CondSRF:" + x for x in nc]
+            elif k in ("krige_delete", "set_condition"):
+                left = ["Krige:" + x for x in nk_]
+            elif pos_id != old_pos and old_pos is not None:
+                if own_crf is not None:
+                    left += ["CondSRF:" + x for x in nc if x not in own_crf]
+                if own_krige is not None:
+                    left += ["Krige:" + x for x in nk_ if x not in own_krige]
+            if left:
+                survivors.append((idx, k if pos_id == old_pos or k in ("delete", "krige_delete", "set_condition") else k + "-new-pos", left))
+    return {"calls": out, "names": names, "survivors": survivors}
 
 
 def _c(**kw):
     return dict({"k": "call"}, **kw)
 
+
+_OFF = dict(store=False, fs=False, rfs=False)       # crf(store=False): nothing stored in the CondSRF object
+_KOFF = dict(kstore=False, kfs=False)               # crf(krige_store=False): nothing stored in the Krige object
 
 # directed histories, replayed first on every run (correspondence and search).  All respect the documented protocol
 # (every model / mean change is followed by the refresh), so every call must equal a freshly built object.
@@ -240,50 +454,87 @@ DIRECTED = [
     # the classic ones (D6): new conditioning values / model change + refresh / mean change + refresh, positions unchanged
     ("new-values", [_c(pos=0), {"k": "set_condition", "cond": 1}, _c()]),
     ("model-refresh", [_c(pos=0), {"k": "model", "v": 1}, {"k": "set_condition"}, _c()]),
+    ("model-reassign-refresh", [_c(pos=0), {"k": "model", "v": 2, "re": True}, {"k": "set_condition"}, _c(), _c(sd=1)]),
     ("mean-refresh", [_c(pos=0), {"k": "mean", "v": 1}, {"k": "set_condition"}, _c()]),
     ("model-refresh-with-values", [_c(pos=0), {"k": "model", "v": 1}, {"k": "set_condition", "cond": 1}, _c(pos=1)]),
     # history 1: the store=False call re-stores krige_var but not raw_krige
-    ("h1-nostore", [_c(pos=0), {"k": "set_condition", "cond": 1}, _c(store=False), _c()]),
+    ("h1-nostore", [_c(pos=0), {"k": "set_condition", "cond": 1}, _c(**_OFF), _c()]),
     # history 2: a direct kriging call re-stores krige_var
     ("h2-krige-call", [_c(pos=0), {"k": "set_condition", "cond": 1}, {"k": "krige_call", "pos": 0}, _c()]),
     ("h2-krige-call-nopos", [_c(pos=0), {"k": "model", "v": 2}, {"k": "set_condition"}, {"k": "krige_call"}, _c()]),
     # a direct kriging call at other positions (same / different point count) moves the shared positions
     ("krige-other-pos-same-count", [_c(pos=0), {"k": "krige_call", "pos": 1}, _c()]),
     ("krige-other-pos", [_c(pos=0), {"k": "krige_call", "pos": 2}, _c()]),
-    ("krige-set-pos", [_c(pos=0), {"k": "krige_set_pos", "pos": 1}, _c(store=False), _c()]),
+    ("krige-set-pos", [_c(pos=0), {"k": "krige_set_pos", "pos": 1}, _c(**_OFF), _c()]),
     # custom names: run 2 stores its raw kriging field under another name, its variance under the default name
     ("names-raw", [_c(pos=0), {"k": "set_condition", "cond": 1}, _c(rn=1), _c()]),
-    ("h1-list-form", [_c(pos=0), {"k": "set_condition", "cond": 2}, _c(sx=[True, True], store=False), _c()]),
+    ("h1-list-form", [_c(pos=0), {"k": "set_condition", "cond": 2}, _c(store=False), _c()]),
     ("names-var", [_c(pos=0, vn=1), {"k": "set_condition", "cond": 1}, _c(), {"k": "krige_call", "vn": 1}, _c(vn=1)]),
     # harmless reuse must survive: nothing changed, deletions on either object
-    ("reuse", [_c(pos=0), _c(), _c(pos=0), {"k": "krige_delete"}, _c(store=False), _c(), {"k": "delete"}, _c(kstore=False), _c()]),
+    ("reuse", [_c(pos=0), _c(), _c(pos=0), {"k": "krige_delete"}, _c(**_OFF), _c(), {"k": "delete"}, _c(**_KOFF), _c()]),
+    # several meshes, then an invalidation, then calls without positions
+    ("meshes-new-values", [_c(pos=0), _c(pos=2), {"k": "set_condition", "cond": 1}, _c()]),
+    ("meshes-set-pos", [_c(pos=0), _c(pos=1), {"k": "set_pos", "pos": 5}, _c()]),
+    ("meshes-structured", [_c(pos=3), _c(pos=0), _c(pos=3), {"k": "set_condition", "cond": 2}, _c(), {"k": "krige_set_pos", "pos": 4}, _c()]),
+    ("meshes-krige-first", [{"k": "krige_call", "pos": 1}, _c(), {"k": "set_condition", "cond": 3}, _c(), {"k": "delete"}, _c()]),
+    ("meshes-names", [_c(pos=0, fn=1, rfn=1, rn=1, kfn=1, vn=1), _c(pos=4, rn=2, vn=2), _c(pos=1), _c(pos=5, rn=1, vn=1),
+                      {"k": "model", "v": 3}, {"k": "set_condition"}, _c(rn=1, vn=1), {"k": "krige_delete"}, _c(rn=1, vn=1)]),
 ]
 
 
 def directed_cases():
+    """every directed history on several model families / profiles (what the model identifiers differ in)"""
     out = []
+    combos = [("Simple", None, "len"), ("Ordinary", None, "len"), ("Simple", "Stable", "opt"), ("Ordinary", "Matern", "opt"),
+              ("Universal", "TPLStable", "opt"), ("Simple", "Rational", "rescale"), ("Ordinary", "Exponential", "var"),
+              ("Simple", "Spherical", "geo"), ("Ordinary", "Gaussian", "nugget")]
     for i, (name, ops) in enumerate(DIRECTED):
-        for j, variant in enumerate(["Simple", "Ordinary"]):
-            cv = concrete(np.random.RandomState(9000 + 2 * i + j), dim=1 + (i + j) % 2, variant=variant)
+        for j in (i % 2, 2 + (i % (len(combos) - 2))):
+            variant, cls, profile = combos[j]
+            dim = 1 + (i + j) % 2 if profile != "geo" else 2 + (i % 2)
+            cv = concrete(np.random.RandomState(9000 + 16 * i + j), dim=dim, variant=variant, cls=cls, profile=profile)
             out.append((name, cv, [dict(o) for o in ops], 0, 0, 0))
     return out
 
 
+_DIRECTED_RUNS = {}
+
+
+def directed_run(i, cv, ops, c0, m0, mu0):
+    """run_real of the i-th directed case, computed once per process (correspondence and search replay the same cases)"""
+    if i not in _DIRECTED_RUNS:
+        try:
+            _DIRECTED_RUNS[i] = run_real(cv, ops, c0, m0, mu0)
+        except Exception as e:       # noqa
+            _DIRECTED_RUNS[i] = e
+    if isinstance(_DIRECTED_RUNS[i], Exception):
+        raise _DIRECTED_RUNS[i]
+    return _DIRECTED_RUNS[i]
+
+
+def model_names(nm):
+    """the model's stored-field bookkeeping as field-name sets"""
+    return (sorted(CRF_SLOTS[sl][n] for sl, n in nm["crf"] if n < 3), sorted(KRIGE_SLOTS[sl][n] for sl, n in nm["krige"] if n < 3))
+
+
 def correspondence(ctx):
     rng = np.random.RandomState(ctx.seed + 707)
-    H = ctx.scale(100, 400)
+    H = ctx.scale(60, 400)
     L = ctx.scale(12, 60)
     cases, opsl = [], []
     for name, cv, ops, c0, m0, mu0 in directed_cases():
         cases.append((cv, ops, c0, m0, mu0))
+    ND = len(cases)
     for h in range(H):
         cv = concrete(rng)
-        ops = gen_history(rng, int(rng.randint(3, L + 1)))
+        # every second history respects the documented protocol (refresh after each model / mean change: every call must be
+        # fresh), the others also exercise the model's prediction of staleness without refresh
+        ops = (protocol_history if h % 2 else gen_history)(rng, int(rng.randint(3, L + 1)))
         c0, m0, mu0 = int(rng.randint(0, 4)), int(rng.randint(0, 4)), int(rng.randint(0, 3))
         cases.append((cv, ops, c0, m0, mu0))
     H = len(cases)
     for cv, ops, c0, m0, mu0 in cases:
-        opsl.append({"op": "cond_history", "cond": c0, "model": m0, "mean": mu0, "ops": ops})
+        opsl.append({"op": "cond_history", "cond": c0, "model": m0, "mean": mu0, "ops": [normal(o) for o in ops]})
     # the conditioning formula on Float
     fops = []
     for _ in range(ctx.scale(30, 300)):
@@ -297,22 +548,40 @@ def correspondence(ctx):
                      "noise": fbits(f["noise"]), "var": fbits([f["var"]])[0], "nugget": fbits([f["nugget"]])[0]})
     res = run_driver(opsl)
     dis, distinct = [], set()
-    dist = {"calls": 0, "reused": 0, "stale_predicted": 0, "ValueError": 0, "mixed_runs_predicted": 0, "ops": {}}
-    for (cv, ops, c0, m0, mu0), r in zip(cases, res[:H]):
+    dist = {"calls": 0, "reused": 0, "stale_predicted": 0, "ValueError": 0, "mixed_runs_predicted": 0, "names_compared": 0,
+            "max_stored": 0, "ops": {}, "profiles": {}, "classes": {}, "pos_changes_with_stored_fields": 0}
+    for ci, ((cv, ops, c0, m0, mu0), r) in enumerate(zip(cases, res[:H])):
         for o in ops:
             dist["ops"][kind(o)] = dist["ops"].get(kind(o), 0) + 1
+        dist["profiles"][cv["profile"]] = dist["profiles"].get(cv["profile"], 0) + 1
+        dist["classes"][cv["cls"]] = dist["classes"].get(cv["cls"], 0) + 1
         try:
-            real = run_real(cv, ops, c0, m0, mu0)
+            rr = directed_run(ci, cv, ops, c0, m0, mu0) if ci < ND else run_real(cv, ops, c0, m0, mu0)
         except Exception as e:       # noqa
-            dis.append({"what": "history raised outside a CondSRF call: %s: %s" % (type(e).__name__, e), "ops": ops})
+            dis.append({"what": "history raised outside a CondSRF call: %s: %s" % (type(e).__name__, e), "ops": ops, "config": describe(cv)})
             continue
         if isinstance(r, dict) and "error" in r:
             dis.append({"what": "driver error " + r["error"]})
             continue
-        if len(real) != len(r):
+        real, rcalls = rr["calls"], r["calls"]
+        if len(real) != len(rcalls) or len(rr["names"]) != len(r["names"]):
             dis.append({"what": "number of calls differs", "ops": ops})
             continue
-        for i, (a, b) in enumerate(zip(real, r)):
+        # stored fields of both objects after every operation: real field_names == the model's bookkeeping
+        prev = ([], [])
+        for i, (a, b) in enumerate(zip(rr["names"], r["names"])):
+            dist["names_compared"] += 1
+            mb = model_names(b)
+            dist["max_stored"] = max(dist["max_stored"], len(a[0]) + len(a[1]))
+            if ops[i]["k"] in ("set_pos", "krige_set_pos", "call", "krige_call") and (prev[0] or prev[1]) and "pos" in ops[i]:
+                dist["pos_changes_with_stored_fields"] += 1
+            prev = a
+            if (list(a[0]), list(a[1])) != (mb[0], mb[1]):
+                dis.append({"what": "stored fields (field_names of the CondSRF / Krige object) after an operation differ from the cache "
+                                    "model's bookkeeping", "op_index": i, "op": ops[i], "real": {"CondSRF": a[0], "Krige": a[1]},
+                            "model": {"CondSRF": mb[0], "Krige": mb[1]}, "ops": ops, "init": [c0, m0, mu0], "config": describe(cv)})
+                break
+        for i, (a, b) in enumerate(zip(real, rcalls)):
             dist["calls"] += 1
             if a == "ValueError" or b == "ValueError":
                 dist["ValueError"] += 1
@@ -330,8 +599,7 @@ def correspondence(ctx):
                     ok = True
             if not ok:
                 dis.append({"what": "CondSRF call: real output vs fresh object does not match the cache model's prediction",
-                            "call_index": i, "real": a, "model": b, "ops": ops, "init": [c0, m0, mu0],
-                            "variant": cv["variant"], "cls": cv["cls"], "dim": cv["dim"]})
+                            "call_index": i, "real": a, "model": b, "ops": ops, "init": [c0, m0, mu0], "config": describe(cv)})
                 break
         distinct.add(tuple(kind(o) for o in ops))
     # formula: compare with the real get_scaling path (the generator's nugget noise is prescribed)
@@ -353,14 +621,18 @@ def correspondence(ctx):
             dis.append({"what": "conditioning formula: model differs from get_scaling",
                         "case": {k: (v.tolist() if hasattr(v, "tolist") else v) for k, v in f.items()},
                         "real": np.asarray(real).tolist(), "lean": lean.tolist()})
-    return {"evaluations": dist["calls"] + len(fops), "distinct_nontrivial": len(distinct),
-            "rule": "directed histories first (stale-reuse histories through store=False, direct kriging calls, custom names), then random "
-                    "histories (CondSRF calls with/without positions and every store / krige_store form incl. custom names, direct kriging "
-                    "calls at the same / other positions, set_pos on either object, set_condition with new data / refresh, in-place model "
-                    "change incl. anisotropy and rotation, mean/trend re-assignment, delete_fields on either object) on real CondSRF objects "
-                    "(Simple / Ordinary / Universal, dim 1-3); per call: real output == output of a freshly built object  <=>  the cache "
-                    "model's tokens (raw kriging field AND variance) equal the fresh token; plus the conditioning formula vs get_scaling; "
-                    "distinct = distinct operation-kind sequences",
+    return {"evaluations": dist["calls"] + dist["names_compared"] + len(fops), "distinct_nontrivial": len(distinct),
+            "rule": "directed histories first (stale-reuse histories through store=False, direct kriging calls, custom names, several meshes "
+                    "followed by an invalidation and a call without positions), each on several model families, then random histories "
+                    "(CondSRF calls with/without positions, same / new seeds and every store / krige_store form incl. custom names for every "
+                    "slot, direct kriging calls at the same / other positions, set_pos on either object over six meshes (shared and different "
+                    "point counts, one structured), runs of mesh changes, set_condition with new data / refresh, model change in place or by "
+                    "re-assignment, mean/trend re-assignment, delete_fields on either object) on real CondSRF objects (Simple / Ordinary / "
+                    "Universal, dim 1-3, 15 model families; the model identifiers of a history differ ONLY in length scale (+ geometry), in one "
+                    "optional argument, in anisotropy / rotation, in rescale, in var or in nugget); per call: real output == output of a freshly "
+                    "built object  <=>  the cache model's tokens (raw kriging field AND variance) equal the fresh token; after every "
+                    "operation: field_names of both objects == the model's stored-field bookkeeping; plus the conditioning formula vs "
+                    "get_scaling; distinct = distinct operation-kind sequences",
             "samples": [c[1] for c in cases[:3]], "disagreements": dis[:6], "distribution": dist}
 
 
@@ -377,7 +649,7 @@ def protocol_history(rng, length):
 
 def _fails(cv, ops, c0, m0, mu0):
     try:
-        rr = run_real(cv, ops, c0, m0, mu0)
+        rr = run_real(cv, ops, c0, m0, mu0)["calls"]
     except Exception:       # noqa
         return None
     bad = [x for x in rr if x != "ValueError" and not x[0]]
@@ -411,7 +683,7 @@ def shrink(cv, ops, c0, m0, mu0):
         if changed:
             continue
         for j in range(len(cur)):
-            for f in ("sx", "kx", "store", "kstore", "rn", "vn"):
+            for f in ("list", "sd", "re", "fn", "fs", "rfn", "rfs", "kfn", "kfs", "store", "kstore", "rn", "vn"):
                 if f in cur[j]:
                     o = dict(cur[j])
                     del o[f]
@@ -424,23 +696,39 @@ def shrink(cv, ops, c0, m0, mu0):
     return cur
 
 
+def case_dump(cv):
+    return dict(describe(cv), cond_pos=cv["cp"].tolist(), conds=[c.tolist() for c in cv["conds"]], model_kwargs=cv["mparams"],
+                means=cv["means"], positions=[[np.asarray(a).tolist() for a in p[0]] for p in cv["poss"]],
+                mesh_types=[p[1] for p in cv["poss"]], seed=SEED, crf_slot_names=CRF_SLOTS, krige_slot_names=KRIGE_SLOTS)
+
+
 def history_search(ctx, n):
-    """the property itself on the real object: each call of a protocol-respecting history equals a fresh object"""
+    """the property itself on the real object: each call of a protocol-respecting history equals a fresh object, and no
+       deletion / position change leaves a stored field behind"""
     rng = np.random.RandomState(ctx.seed + 777)
     viol, ev, keys = [], 0, set()
 
-    def examine(cv, ops, c0, m0, mu0, origin):
+    def examine(cv, ops, c0, m0, mu0, origin, di=None):
         nonlocal ev
         try:
-            real = run_real(cv, ops, c0, m0, mu0)
+            rr = run_real(cv, ops, c0, m0, mu0) if di is None else directed_run(di, cv, ops, c0, m0, mu0)
         except Exception as e:       # noqa
             key = "condsrf:history-raised:" + "-".join(kind(o) for o in ops)
             if key not in keys:
                 keys.add(key)
                 viol.append({"key": key, "what": "an operation other than a CondSRF call raised %s: %s" % (type(e).__name__, e),
-                             "case": {"history": ops, "init": [c0, m0, mu0], "origin": origin}})
+                             "case": dict(case_dump(cv), history=ops, init=[c0, m0, mu0], origin=origin)})
             return
-        ev += len(real)
+        real = rr["calls"]
+        ev += len(real) + len(ops)
+        for idx, k, left in rr["survivors"]:
+            key = "condsrf:fields-survive:" + k
+            if key not in keys:
+                keys.add(key)
+                viol.append({"key": key, "what": "stored fields remain after %s although delete_fields() / a position change / set_condition "
+                                                 "removes all stored fields of the object: %s" % (k, ", ".join(left)),
+                             "case": dict(case_dump(cv), history=ops[: idx + 1], init=[c0, m0, mu0], origin=origin,
+                                          field_names_after=rr["names"][idx])})
         for i, a in enumerate(real):
             if a != "ValueError" and not a[0]:
                 cur = shrink(cv, ops, c0, m0, mu0)
@@ -450,17 +738,14 @@ def history_search(ctx, n):
                 if key in keys:
                     return
                 keys.add(key)
-                viol.append({"key": key, "what": "a call returns a field different from a freshly built object (stale kriging result reused)",
-                             "case": {"history": cur, "init": [c0, m0, mu0], "variant": cv["variant"], "class": cv["cls"], "dim": cv["dim"],
-                                      "max_abs_diff": b[1], "note": b[2] if len(b) > 2 else "", "origin": origin,
-                                      "cond_pos": cv["cp"].tolist(), "conds": [c.tolist() for c in cv["conds"]], "len_scales": cv["lens"],
-                                      "anis": cv["anis"], "angles": cv["angles"], "means": cv["means"],
-                                      "positions": [p.tolist() for p in cv["poss"]], "seed": SEED,
-                                      "raw_names": RAW_NAMES, "var_names": VAR_NAMES}})
+                viol.append({"key": key, "what": "a call returns a field different from a freshly built object (stale kriging result or stale "
+                                                 "generator state reused)",
+                             "case": dict(case_dump(cv), history=cur, init=[c0, m0, mu0], max_abs_diff=b[1],
+                                          note=b[2] if len(b) > 2 else "", origin=origin)})
                 return
 
-    for name, cv, ops, c0, m0, mu0 in directed_cases():
-        examine(cv, ops, c0, m0, mu0, "directed:" + name)
+    for di, (name, cv, ops, c0, m0, mu0) in enumerate(directed_cases()):
+        examine(cv, ops, c0, m0, mu0, "directed:" + name, di)
     nd = len(viol)
     for h in range(n):
         cv = concrete(rng)
@@ -476,7 +761,7 @@ def search(ctx, deep=False):
     import gstools as gs
     rng = np.random.RandomState(ctx.seed + 77)
     N = ctx.scale(25, 200) * (3 if deep else 1)
-    ev, viol = history_search(ctx, ctx.scale(40, 400) * (3 if deep else 1))
+    ev, viol = history_search(ctx, ctx.scale(26, 400) * (3 if deep else 1))
     seen = set()
 
     def report(v):
@@ -546,7 +831,10 @@ def search(ctx, deep=False):
                             report({"key": "condsrf:far-field", "what": "far from the data the simple-kriging conditioned field is not mean + unconditional field",
                                     "case": dict(desc, seed=int(seed)), "got": float(f[-1]), "want": float(0.5 + raw[-1])})
     return {"evaluations": ev, "violations": viol[:10],
-            "summary": "real CondSRF: directed + random protocol-respecting histories (store / krige_store forms, custom names, direct kriging calls, "
-                       "set_pos / delete_fields on either object, anisotropy edits + refresh) vs freshly built objects; data honoured for several "
+            "summary": "real CondSRF: directed + random protocol-respecting histories (store / krige_store forms, custom names for every slot, direct "
+                       "kriging calls, set_pos / delete_fields on either object over six meshes, runs of mesh changes + invalidation + call without "
+                       "positions, model changes in place / by re-assignment touching only the length scale, one optional argument, the geometry, "
+                       "rescale, var or nugget, each followed by the refresh; 15 model families) vs freshly built objects; after every deletion / "
+                       "set_condition / position change no stored field may remain (field_names of both objects); data honoured for several "
                        "seeds and variants (incl. exact mode with nugget, anisotropic rotated models); formula from stored fields and from an "
                        "independent kriging solve + SRF of the same seed (incl. kvar > var); far-field limit"}
